@@ -2,12 +2,14 @@ import GoLevel.Driver.Key
 import GoLevel.Driver.Iter
 import GoLevel.Driver.Journal
 import GoLevel.Driver.Bloom
+import GoLevel.Driver.LSM
 /-! `gldriver`: reads one operation per line on stdin, answers one line per operation on stdout.
 The first token selects the layer.  Core-only (must link). -/
 open GoLevel GoLevel.Driver
 
 structure DState where
   it : ItState := .none
+  lsm : LsmState := {}
 
 def dispatch (st : DState) (line : String) : DState × String :=
   let toks := (line.splitOn " ").filter (· ≠ "")
@@ -15,6 +17,10 @@ def dispatch (st : DState) (line : String) : DState × String :=
   | "key" :: rest => (st, (handleKey rest).getD "bad-op")
   | "jrn" :: rest => (st, (handleJrn rest).getD "bad-op")
   | "bloom" :: rest => (st, (handleBloom rest).getD "bad-op")
+  | "lsm" :: rest =>
+    match handleLsm st.lsm rest with
+    | some (l', out) => ({ st with lsm := l' }, out)
+    | none => (st, "bad-op")
   | "it" :: rest =>
     match handleIt st.it rest with
     | some (it', out) => ({ st with it := it' }, out)
